@@ -136,7 +136,7 @@ BnDivMod(a, b) ==
   ELSE BnDivModLong(a, b)
 
 \* ---- tables and decimal conversion ------------------------------------------------------
-BnP10Max == 420
+BnP10Max == 440
 BnP10 == FoldLeft(LAMBDA acc, k : Append(acc, BnMulS(acc[Len(acc)], 10)), << <<1>> >>, BnIdx(BnP10Max))
 BnPow10(k) == BnP10[k + 1]                            \* 0 <= k <= BnP10Max
 \* digits: sequence of digit values, most significant first
